@@ -218,7 +218,9 @@ func (a *DecConfRec) EncodeSW(sw bits.SliceWriter) error {
 		sw.WriteBytes(pps)
 	}
 	switch a.AVCProfileIndication {
-	case 100, 110, 122, 144: // From ISO/IEC 14496-15 2017 Section 5.3.3.1.2
+	case 66, 77, 88: // From ISO/IEC 14496-15 2017 Section 5.3.3.1.2
+		// No extra bytes, as in DecodeAVCDecConfRec and Size()
+	default:
 		if a.NoTrailingInfo { // Strange content, but consistent with Size()
 			return sw.AccError()
 		}
@@ -226,8 +228,6 @@ func (a *DecConfRec) EncodeSW(sw bits.SliceWriter) error {
 		sw.WriteUint8(0xf8 | a.BitDepthLumaMinus1)
 		sw.WriteUint8(0xf8 | a.BitDepthChromaMinus1)
 		sw.WriteUint8(a.NumSPSExt)
-	default:
-		//Nothing more to write
 	}
 
 	return sw.AccError()
